@@ -97,6 +97,7 @@ def cases(tier):
         for opt in ('-', '-i', '-v'):
             for n in (2, 3):
                 out.append({'name': 'multi', 'form': form, 'dirs': [], 'date': '2024-05-06T07:08:09', 'us': 0, 'multi': n, 'opt': opt})
+                out.append({'name': 'multi', 'form': form, 'dirs': [], 'date': '2024-05-06T07:08:09', 'us': 0, 'multi': n, 'opt': opt, 'spelled': 1})
     # a home trash that lives on its own volume (/home is a mount point): absolute Paths, read back unchanged by every reader
     for dirs in ([], ['d 1'], ['home', 'u']):
         for n in ('f', '%41', 'a b', 'é'):
@@ -130,18 +131,40 @@ def run_multi(c):
     B = top + '/w'
     W = scen.base_world(mounts=['/', '/mnt/v1'], cwd=B)
     names = ['m%d' % i for i in range(c['multi'])]
+    locs = {n: B + '/' + n for n in names}
+    args = list(names)
+    if c.get('spelled'):
+        # the last argument lives elsewhere and is spelled through a symlink and '..': sub -> <top>/other/deep, so sub/../mN is <top>/other/mN
+        # (a lexical collapse, or a cache keyed by it, would take it for <cwd>/mN)
+        W.dir(top + '/other/deep').link(B + '/sub', top + '/other/deep')
+        locs[names[-1]] = top + '/other/' + names[-1]
+        args[-1] = 'sub/../' + names[-1]
     for n in names:
-        W.file(B + '/' + n, 'payload %s\n' % n)
-    argv = ['trash-put'] + ([c['opt']] if c['opt'] != '-' else []) + names
+        W.file(locs[n], 'payload %s\n' % n)
+    argv = ['trash-put'] + ([c['opt']] if c['opt'] != '-' else []) + args
     with cell.Sandbox(W.spec()) as sb:
         before = sb.snapshot()
         r = sb.run(argv, cwd=B, now=c['date'], stdin='y\n' * len(names) if c['opt'] == '-i' else None, plan={'clock_step_us': 60 * 10 ** 6})
         after = sb.snapshot()
+        # every reader must then find every one of them at its own location (trash-rm: the LAST one, by its full path)
+        rl = sb.run(['trash-list'], cwd='/')
+        rm = sb.run(['trash-rm', locs[names[-1]]], cwd='/')
+        fin = sb.snapshot()
     dates = []
+    recorded = {}
     for td, nm in scen.new_infos(before, after):
         p = R1.parse(scen.info_of(after, td, nm))
         dates.append((p['path'].rsplit(b'/', 1)[-1].decode(), p['date'].decode()))
+        loc = p['path'].decode()
+        recorded[p['path'].rsplit(b'/', 1)[-1].decode()] = loc if loc.startswith('/') else top + '/' + loc
     dates.sort()
+    if r.exit == 0 and sorted(recorded) == names:
+        wrong = [n for n in names if recorded[n] != locs[n]]
+        listed = sorted(ln[20:] for ln in rl.out.split('\n') if ln)
+        gone = [nm for td, nm in scen.new_infos(before, after) if scen.info_of(fin, td, nm) is None]
+        if wrong or listed != sorted(locs.values()) or len(gone) != 1:
+            return {'verdict': 'viol', 'sig': 'C03|decodes-to-other-path|several-arguments|%s' % ('recorded' if wrong else ('listed' if listed != sorted(locs.values()) else 'rm')),
+                    'klass': 'decode-mismatch', 'nontrivial': 'multi|decode', 'detail': {'argv': argv, 'recorded': recorded, 'want': locs, 'listed': listed, 'rm_removed': gone, 'rm_err': rm.err[-200:]}}
     detail = {'argv': argv, 'exit': r.exit, 'err': r.err[-200:], 'dates': dates}
     nt = 'multi|%s|%s|%d' % (c['form'], c['opt'], c['multi'])
     if r.exit != 0 or [d[0] for d in dates] != names:
